@@ -97,7 +97,7 @@ def st_wb(tier):
                 ops.append(o)
             progs.append(ops)
         return {"T": T, "M": M, "S": S, "wins": [list(w) for w in wins], "register": register, "progs": progs, "sil": sil,
-                "seed": draw(st.integers(0, 2 ** 16))}
+                "dw": draw(st.sampled_from([32, 32, 64])), "seed": draw(st.integers(0, 2 ** 16))}
     return case()
 
 
@@ -119,9 +119,16 @@ def run_wb(case):
     T, M, S = case["T"], case["M"], case["S"]
     register = bool(case["register"])
     top = Module()
-    masters = [wishbone.Interface(data_width=32, adr_width=30, addressing="word") for _ in range(M)]
-    slaves = [wishbone.Interface(data_width=32, adr_width=30, addressing="word") for _ in range(S)]
-    decs = [(SoCRegion(origin=o, size=s).decoder(_Bus32), sl) for (o, s), sl in zip(case["wins"], slaves)]
+    dw = case.get("dw", 32)              # bus data width: the forced response must be all ones over the whole width
+    nb_ = dw // 8
+    ash = nb_.bit_length() - 1
+    ONES = (1 << dw) - 1
+
+    class _B(_Bus32):
+        data_width = dw
+    masters = [wishbone.Interface(data_width=dw, adr_width=32 - ash, addressing="word") for _ in range(M)]
+    slaves = [wishbone.Interface(data_width=dw, adr_width=32 - ash, addressing="word") for _ in range(S)]
+    decs = [(SoCRegion(origin=o, size=s).decoder(_B), sl) for (o, s), sl in zip(case["wins"], slaves)]
     top.submodules.dut = dut = wishbone.InterconnectShared(masters, decs, register=register, timeout_cycles=T)
     if not hasattr(dut, "timeout"):
         return bad("no-timeout", "InterconnectShared(timeout_cycles=%d) has no timeout sub-module" % T, key="c11:wb-no-timeout")
@@ -135,13 +142,13 @@ def run_wb(case):
     models = []
     for j in range(S):
         iw = _wb_init(case["seed"], j)
-        models.append(c11lib.ByteMem(64, [(iw[i // 4] >> (8 * (i % 4))) & 0xff for i in range(64)]))
+        models.append(c11lib.ByteMem(16 * nb_, [(iw[i // nb_] >> (8 * (i % nb_))) & 0xff for i in range(16 * nb_)]))
     mags = []
     nops = 0
     for m in range(M):
         ops = []
         for o in case["progs"][m]:
-            ops.append({"we": o["we"], "adr": o["badr"] >> 2, "dat": ((m + 1) << 28) | (o["lat"] << 24) | o["dat"], "sel": o["sel"],
+            ops.append({"we": o["we"], "adr": o["badr"] >> ash, "dat": ((m + 1) << 28) | (o["lat"] << 24) | o["dat"], "sel": o["sel"],
                         "gap": o["gap"], "hold": o["hold"], "nb": o.get("nb", 0)})
             nops += 1
         mags.append(c11lib.WBOpMaster(masters[m], ops))
@@ -162,7 +169,7 @@ def run_wb(case):
         return False
 
     cyc = bench.run(top, mags + [drv] + mprobe + sprobe + [xprobe], limit, stop=stop)
-    cls = ["T=%d" % T, "M%dS%d" % (M, S), "registered" if register else "comb-decode"]
+    cls = ["T=%d" % T, "M%dS%d" % (M, S), "registered" if register else "comb-decode", "dw%d" % dw]
     ctx = "wishbone shared T=%d %dx%d%s" % (T, M, S, " registered" if register else "")
     n = len(xprobe.trace) - 1         # complete cycles 0..n-1 (trace[c + 1] holds cycle c)
 
@@ -198,7 +205,7 @@ def run_wb(case):
         ans = [j for j in range(S) if sv[j][0] and sv[j][1] and sv[j][2]]
         if len(ans) > 1:
             return bad("one-slave", "%s: cycle %d: slaves %r answer together" % (ctx, c, ans), key="c11:wb-route", cls=cls, cycles=cyc)
-        what = "master %d %s %#x (request visible since cycle %d, offset %d)" % (g, "write" if we else "read", adr << 2, start, k)
+        what = "master %d %s %#x (request visible since cycle %d, offset %d)" % (g, "write" if we else "read", adr << ash, start, k)
         if k > T:
             return bad("bound", "%s: cycle %d: %s is still not terminated, %d cycles after it was granted the bus" % (ctx, c, what, k),
                        key="c11:wb-bound", cls=cls, cycles=cyc)
@@ -285,14 +292,14 @@ def run_wb(case):
                 return bad("model", "%s: master %d op %d: a never-answering request was answered" % (ctx, m, i), key="c11:wb-harness", cls=cls, cycles=cyc)
             if not quiet:
                 cls.append("silent-window-hit")
-        word = (o["badr"] >> 2) & 15
+        word = (o["badr"] >> ash) & 15
         dat_w = ((m + 1) << 28) | (o["lat"] << 24) | o["dat"]
         sl_acked = j >= 0 and sprobe[j].trace[ackc + 1][2] and sprobe[j].trace[ackc + 1][0] and sprobe[j].trace[ackc + 1][1]
         if o["we"]:
             if sl_acked:                      # the slave performed it (also when the expiry cycle reported an error)
-                models[j].write(word * 4, 4, dat_w, o["sel"])
+                models[j].write(word * nb_, nb_, dat_w, o["sel"])
         elif not isf:
-            exp = models[j].read(word * 4, 4)
+            exp = models[j].read(word * nb_, nb_)
             if dat_r != exp:
                 return bad("scoreboard", "%s: master %d read of %#x returned %#x, slave %d memory holds %#x" % (ctx, m, o["badr"], dat_r, j, exp),
                            key="c11:wb-data", cls=cls, cycles=cyc)
